@@ -118,6 +118,13 @@ func (t *Transport) RoundTrip(req *http.Request) (*http.Response, error) {
 			if hh.Priority == 0 {
 				continue
 			}
+			// A record that gives no address cannot be used.
+			if hh.Target != "" && len(res.Additional[hh.Target]) == 0 {
+				continue
+			}
+			if hh.Target == "" && len(res.Address) == 0 && len(hh.IPv4Hint) == 0 && len(hh.IPv6Hint) == 0 {
+				continue
+			}
 			if slices.Contains(hh.ALPN, "h3") {
 				useH3 = true
 				break
